@@ -61,6 +61,10 @@ imb_quic_aes_gcm(IMB_MGR *state, const struct gcm_key_data *key_data,
                 imb_set_errno(state, IMB_ERR_NULL_SRC);
                 return;
         }
+        if (len_array == NULL) {
+                imb_set_errno(state, IMB_ERR_CIPH_LEN);
+                return;
+        }
         if (iv_ptr_array == NULL) {
                 imb_set_errno(state, IMB_ERR_NULL_IV);
                 return;
